@@ -37,7 +37,7 @@ LEVEL_TEXT = (
 )
 TECHNIQUE = "Lean 4 proof (conditional on H1/H2/H3) of the hand model + differential correspondence + oracle with independent harmonics and finite differences"
 GEN = ["harmonics", "atominterp"]
-LEAN_MODULES = ["GridVerif.Props.C09", "GridVerif.Props.C09.Example", "GridVerif.Props.C09.Gen", "GridVerif.Props.C09.Gen2"]
+LEAN_MODULES = ["GridVerif.Props.C09", "GridVerif.Props.C09.Example", "GridVerif.Props.C09.Gen", "GridVerif.Props.C09.Gen2", "GridVerif.Props.C09.Mol"]
 THEOREMS = [
     "GridVerif.C09.reweighted_sum_is_integral",
     "GridVerif.C09.angular_integral_exact",
@@ -80,6 +80,10 @@ THEOREMS = [
     "GridVerif.C09.gen_mol_interp_is_sum",
     "GridVerif.C09.gen_integrate_window",
     "GridVerif.C09.gen_convert_atomic_window",
+    # round 6: MolGrid.interpolate itself (weights, slices, loop) generated; one atom = the general formula at one atom
+    "GridVerif.C09.gen_mol_interpolate_eq_model",
+    "GridVerif.C09.gen_mol_one_atom",
+    "GridVerif.C09.gen_mol_is_sum_of_atomic",
 ]
 RULE = (
     "correspondence: atomic grids with 1..7 shells, radial nodes incl. r = 0, 0 < r < 1e-8 and ordinary ones, random positive "
@@ -1417,6 +1421,21 @@ def _corr_round3(ctx, M, add):
             ctx.fail("corr", "molgrid.interpolate:gen", f"generated summation loop on an empty list of atomic interpolants: {ans[:40]} (Python: IndexError)")
     add("C09.gen_mol_low 0", chk_e)
     guarded("defaults / warning / reshape", None, lambda: _r3_fixed_ops(ctx, M, add))
+    # round 6: the generated MolGrid.interpolate (product with the atom-in-molecule weights, slices, loop) with an atomic routine that hands back
+    # its function values: sum over the atoms of (func_vals * aim_weights)[indices[A]:indices[A+1]], for 1, 2, 3 atoms of equal size
+    for nat in (1, 2, 3):
+        seg = rng.choice([5, 12, 26])
+        idx = [seg * a for a in range(nat + 1)]
+        aimw = ctx.np_rng.normal(size=seg * nat) + 0.5
+        fv = ctx.np_rng.normal(size=seg * nat)
+        want = np.sum((fv * aimw).reshape(nat, seg), axis=0)
+
+        def chk_mi(ans, want=want, nat=nat):
+            ctx.count(["gen", "mol_interp", nat], nontrivial=True, tag=f"gen:mol_interp:{nat}")
+            t = Tokens(ans); t.tok()
+            if not ans.startswith("ok") or t.vec() != [len(want)] or not _cmp_arrays(want, np.array(t.fvec()), 1e-14, atol=1e-15):
+                ctx.fail("corr", "molgrid.interpolate:gen-weights", f"{nat} atom(s): the generated MolGrid.interpolate does not hand (func_vals * aim_weights)[segment] to the atomic routine: {ans[:80]}")
+        add(f"C09.gen_mol_interp {nat} {vec(idx)} {fvec(aimw)} {fvec(fv)}", chk_mi)
     fixed = [dict(n=2, method="lebedev", mixed=True, zero_kind="zero", cap=7), dict(n=3, method="maxdet", mixed=True, zero_kind="none", cap=6),
              dict(n=3, method="spherical", mixed=False, zero_kind="both", cap=7), dict(n=4, zero_kind="far-edge", cap=7, center=np.zeros(3)),
              dict(n=1, method="lebedev", zero_kind="none", cap=5),
